@@ -2957,21 +2957,8 @@ class FnE(Fn):
                     for (ty, t), (_, pty) in zip(args, d.params)]
         return self.generated(node, None, name, "", args)
 
-    def ex_str(self, node, env):
-        ty, t = self.ex(node, env)
-        if ty != "str":
-            bad(node, "text expected, got %s" % show(ty))
-        return t
-
     def listcomp(self, node, env):
         g = node.generators
-        if (len(g) == 1 and not g[0].ifs and not g[0].is_async and isinstance(g[0].target, ast.Name) and g[0].target.id not in env
-                and self.builtin_call(node.elt, "str", env, 1) and self.builtin_call(node.elt.args[0], "int", env, 1)
-                and isinstance(node.elt.args[0].args[0], ast.Name) and node.elt.args[0].args[0].id == g[0].target.id):
-            ty, t = self.ex(g[0].iter, env)              # [str(int(x)) for x in xs]: the decimal text of each item, ValueError at the first bad one
-            if is_list(ty) and ty[1].find().t == "str":
-                return ("out", ("list", Cell("str")), "(py_map_og (fun x => do n <- py_int_o 10 x; Ok (fmt_d n)) %s)" % t)
-            bad(node, "[str(int(x)) for x in xs] over %s" % show(ty))
         if (len(g) == 1 and not g[0].ifs and not g[0].is_async and isinstance(g[0].target, ast.Name) and isinstance(node.elt, ast.Call)
                 and dotted(node.elt.func) == "IPNetwork" and "IPNetwork" not in env and "IPNetwork" in self.mod.classes
                 and len(node.elt.args) == 1 and not node.elt.keywords and isinstance(node.elt.args[0], ast.Name)
@@ -7757,6 +7744,11 @@ SRCG_UNITS.append(
     ("netaddr/contrib/subnet_splitter.py", "pysrc_splitterg_gen.v", "", " Model.SrcPreludeSplitter",
      [("SubnetSplitter", "__init__", {"base_cidr": "net"})]))
 SRCG_PLAIN_FN = ("pysrc_splitterg_gen.v",)         # SRCG units read by Fn itself
+SRCG_UNITS.append(
+    # C06 / C07: what was left of netaddr/ip/sets.py (read by FnG; the SRCA hooks are not active here): the state `_cidrs` is the
+    # leading parameter self_cidrs (STATEVARS, type `dict` = the keys in insertion order)
+    (SETSFILE, "pysrc_sets_g_gen.v", "", " Base.PyStr Model.SrcPreludeStr Model.AddrText Model.SrcPreludeCtor Model.PySlice Model.SrcPreludeSplitter Model.SrcPreludeSets Model.SrcPreludeG",
+     [("IPSet", "__iter__", {}), ("IPSet", "__hash__", {}), ("IPSet", "__reduce__", {}), ("IPSet", "__repr__", {})]))
 # the constant keys of a registration record, in the order of the `orec` tuple (= the dict literal the class writes), per class
 SRCG_REC_KEYS = {"OUI": ("idx", "oui", "org", "address", "offset", "size"), "IAB": ("idx", "iab", "org", "address", "offset", "size")}
 SRCG_REC_TYPES = ("int", "str", "str", ("list", "str"), "int", "int")
@@ -7772,7 +7764,7 @@ SRCG_IDCLASS = {"oui": "OUI", "iab": "IAB"}
 COQTY.update(SRCG_TYPES)
 SRCG_RESERVED = set("irow ikeyview IKNet IKRange IKAddr py_ikey_view sdict py_sd_new py_sd_setdefault py_sd_append IANA_INFO "
                     "py_truthy py_fmt_oct py_fmt_hex py_index string append eindex py_eidx_mem py_eidx_get OUI_INDEX IAB_INDEX REGISTRY_FILE "
-                    "py_pair_of_list py_rec_set CSV_READER py_map_og py_triple_of_list py_eidx_setdefault py_eidx_append py_flat_addrs py_net_addrs darg6 D6None D6Class D6Other py_strip py_unpack2g py_srec_get split join contains_char".split())
+                    "py_pair_of_list py_rec_set CSV_READER py_map_og py_triple_of_list py_eidx_setdefault py_eidx_append py_flat_addrs py_net_addrs darg6 D6None D6Class D6Other py_strip py_unpack2g py_srec_get split join contains_char py_repr_strlist py_sorted_nets".split())
 UNIT_PREAMBLE["pysrc_iana_gen.v"] = (
     "(* IANA_INFO[name] for the four dictionaries the module creates: the rows (key object, record) in insertion order *)\n"
     "Section WithTable.\nVariable IANA_INFO : string -> list irow.\n")
@@ -8331,6 +8323,9 @@ class FnG(FnE):
                 h = r[1]
             return ("str", "(append \"%s\"%%string (append %s \"%s\"%%string))" % (a, h, b))
         if (isinstance(node, ast.BinOp) and isinstance(node.op, ast.Mod) and isinstance(node.left, ast.Constant) and isinstance(node.left.value, str)
+                and re.fullmatch(r"[ -$&-~]*%r[ -$&-~]*", node.left.value) and '"' not in node.left.value and self.tr.out == "pysrc_sets_g_gen.v"):
+            return self.format_r(node, env)
+        if (isinstance(node, ast.BinOp) and isinstance(node.op, ast.Mod) and isinstance(node.left, ast.Constant) and isinstance(node.left.value, str)
                 and re.fullmatch(r"(?:[ -$&-~]|%s|%d)*", node.left.value) and '"' not in node.left.value and "%" in node.left.value
                 and self.tr.out != "pysrc_euig_gen.v"):
             return self.format_sd(node, env)
@@ -8363,6 +8358,17 @@ class FnG(FnE):
         h = self.fresh()
         self.hoist(node, ("bind", h, r[2]))
         return h
+
+    def format_r(self, node, env):
+        """'<text>%r<text>' % <list of text>: Python's repr of a list of str (py_repr_strlist: each item in single quotes, joined by
+        ', ', in brackets; Unsupported for an item that needs escaping -- no IP text does)"""
+        a, b = node.left.value.split("%r")
+        ty, t = self.ex(node.right, env)
+        if not (is_list(ty) and ty[1].find().t == "str"):
+            bad(node, "%%r of %s" % show(ty))
+        h = self.fresh()
+        self.hoist(node, ("bind", h, "(py_repr_strlist %s)" % t))
+        return ("str", "(String.append %s (String.append %s %s))" % (srcc_strlit(a, node), h, srcc_strlit(b, node)))
 
     def format_sd(self, node, env):
         """'..%s..%d..' % (a, b) / % a: the pieces joined by String.append (right-nested), arguments left to right"""
@@ -8534,8 +8540,53 @@ class FnG(FnE):
             CURFILE.pop()
         return name
 
+    def finish(self):
+        rets = [l for l in self.leaves(self.ir) if l[0] == "ret" and l[1] != "@loop"]
+        if not rets and not self.lrets and self.ir[0] == "raise" and self.tr.out == "pysrc_sets_g_gen.v":
+            # a method whose body is one `raise`: it answers nothing; the definition is `Raise E` at type outcome unit
+            self.kind = self.retkind = "none"
+            self.optional, self.outcome, self.type, self.fresh = False, True, "outcome unit", False
+            return
+        super().finish()
+
+    def return_(self, s, env):
+        v = s.value
+        if (self.tr.out == "pysrc_sets_g_gen.v" and isinstance(v, ast.Tuple) and len(v.elts) == 3 and dotted(v.elts[0]) == "self.__class__"
+                and isinstance(v.elts[1], ast.Tuple) and not v.elts[1].elts and "self" not in env):
+            # return self.__class__, (), <state>  (__reduce__): the class and the empty argument tuple are constants of the method; the
+            # definition answers the third component, the state handed to __setstate__
+            r = self.rhs(v.elts[2], env)
+            ty = r[1] if r[0] == "out" else r[0]
+            if not is_value(ty):
+                bad(s, "state of kind %s" % show(ty))
+            return self.wrap(self.take_pre(), self.leaf(env, ty, r[2] if r[0] == "out" else r[1], r[0] == "out"))
+        return super().return_(s, env)
+
+    def ex_str(self, node, env):
+        ty, t = self.ex(node, env)
+        if ty != "str":
+            bad(node, "text expected, got %s" % show(ty))
+        return t
+
     def listcomp(self, node, env):
         g = node.generators
+        if (len(g) == 1 and not g[0].ifs and not g[0].is_async and isinstance(g[0].target, ast.Name) and g[0].target.id not in env
+                and self.builtin_call(node.elt, "str", env, 1) and isinstance(node.elt.args[0], ast.Name)
+                and node.elt.args[0].id == g[0].target.id and self.tr.out == "pysrc_sets_g_gen.v"):
+            ty, t = self.ex(g[0].iter, env)              # [str(c) for c in l] for IPNetwork objects: the translated IPNetwork.__str__ of each
+            if not (is_list(ty) and ty[1].find().t == "net"):
+                bad(node, "[str(c) for c in l] over %s" % show(ty))
+            r = self.generated(node, "IPNetwork", "__str__", self.net_state("c"), [])
+            if r[0] != "out" or r[1] != "str":
+                bad(node, "IPNetwork.__str__ is not translated as text that can raise")
+            return ("out", ("list", Cell("str")), "(py_map_og (fun c => %s) %s)" % (r[2], t))
+        if (len(g) == 1 and not g[0].ifs and not g[0].is_async and isinstance(g[0].target, ast.Name) and g[0].target.id not in env
+                and self.builtin_call(node.elt, "str", env, 1) and self.builtin_call(node.elt.args[0], "int", env, 1)
+                and isinstance(node.elt.args[0].args[0], ast.Name) and node.elt.args[0].args[0].id == g[0].target.id):
+            ty, t = self.ex(g[0].iter, env)              # [str(int(x)) for x in xs]: the decimal text of each item, ValueError at the first bad one
+            if is_list(ty) and ty[1].find().t == "str":
+                return ("out", ("list", Cell("str")), "(py_map_og (fun x => do n <- py_int_o 10 x; Ok (fmt_d n)) %s)" % t)
+            bad(node, "[str(int(x)) for x in xs] over %s" % show(ty))
         if (len(g) == 1 and not g[0].ifs and not g[0].is_async and isinstance(g[0].target, ast.Name) and g[0].target.id not in env
                 and self.builtin_call(node.elt, "int", env, 1) and isinstance(node.elt.args[0], ast.Name)
                 and node.elt.args[0].id == g[0].target.id):
@@ -8614,6 +8665,16 @@ class FnG(FnE):
             return ("sdict", "py_sd_new")
         if (isinstance(f, ast.Attribute) and f.attr == "bit_length" and not node.args and not node.keywords and self.tr.out == "pysrc_core_gen.v"):
             return ("int", "(py_num_bits %s)" % self.int_(f.value, env))      # int.bit_length(): SrcPreludeCmp.py_num_bits (Order.num_bits)
+        if (self.tr.out == "pysrc_sets_g_gen.v" and self.builtin_call(node, "sorted", env, 1) and isinstance(node.args[0], ast.Name)
+                and env.get(node.args[0].id, ("",))[0] == "dict"):
+            # sorted(d) for the dict of an IPSet: its keys sorted by IPNetwork ordering (SrcPreludeSets.py_sorted_nets = Sets.sorted)
+            return (("list", Cell("net")), "(py_sorted_nets %s)" % env[node.args[0].id][1])
+        if (self.tr.out == "pysrc_sets_g_gen.v" and dotted(f) == "_itertools.chain" and FnF.plain_import(self, "_itertools", "itertools")
+                and len(node.args) == 1 and isinstance(node.args[0], ast.Starred) and not node.keywords):
+            ty, t = self.ex(node.args[0].value, env)         # itertools.chain(*l) for a list of IPNetwork objects: the iterator over the
+            if not (is_list(ty) and ty[1].find().t == "net"):        # addresses of one after the other, as the list of what it yields
+                bad(node, "itertools.chain(*l) over %s" % show(ty))
+            return (("list", Cell("objv")), "(py_flat_addrs %s)" % t)
         if name == "__g_dict_item":
             kt = self.objname(node.args[0], env)
             if kt is None:
